@@ -4,6 +4,8 @@ import (
 	"fmt"
 	"go/token"
 	"go/types"
+	"sort"
+	"strconv"
 	"strings"
 
 	"golang.org/x/tools/go/ssa"
@@ -76,9 +78,15 @@ func (x *Exec) callStatic(fr *Frame, st *State, fn *ssa.Function, args []*SV, fr
 			}
 			args = append([]*SV{self}, args...)
 		}
+		if con.View && con.Pure && len(con.Ensures) == 0 && len(con.Requires) == 0 && len(con.Callers) == 0 && con.Implements == "" {
+			x.checkAtCalls(fr, st, con.ParamNames, args, site)
+			k(st, fr, x.viewApp(fn, args))
+			return
+		}
 		x.applyContract(fr, st, con, fn.Signature, args, site, k)
 		return
 	}
+	x.checkAtCalls(fr, st, sigNames(fn), args, site)
 	if ext := x.eng.external(key, fn); ext != nil {
 		ext(x, fr, st, fn, args, site, k)
 		return
@@ -169,6 +177,11 @@ func (x *Exec) applyContractNamed(fr *Frame, st *State, con *Contract, names []s
 	if !fr.pure {
 		for _, c := range append(append([]*Clause{}, con.Requires...), con.Callers...) {
 			g := x.evalClauseBool(c, env, st)
+			if !c.Assumed && x.unit != nil && x.unit.Spec != nil && con.Pkg != x.unit.Spec.Path && x.unit.Spec.Options["assume-pre "+shortPkg(con.Pkg)] {
+				x.notes = append(x.notes, "assumed (unchecked, option assume-pre) precondition "+callee+":"+c.Label)
+				st.assume(g)
+				continue
+			}
 			if c.Assumed {
 				x.notes = append(x.notes, "assumed (unchecked) precondition "+callee+":"+c.Label)
 				st.assume(g)
@@ -696,7 +709,16 @@ func (x *Exec) checkAtCalls(fr *Frame, st *State, names []string, args []*SV, si
 	}
 	text := x.srcLabel(site.Pos(), "call")
 	for _, c := range x.unit.Con.AtCalls {
-		if !strings.Contains(text, c.Site) {
+		sub, ord := c.Site, 0
+		if i := strings.LastIndex(sub, "#"); i > 0 {
+			if n, err := strconv.Atoi(sub[i+1:]); err == nil {
+				sub, ord = strings.TrimSpace(sub[:i]), n
+			}
+		}
+		if !strings.Contains(text, sub) {
+			continue
+		}
+		if ord > 0 && x.callSiteOrdinal(fr.fn, sub, site.Pos()) != ord {
 			continue
 		}
 		env := x.loopEnv(fr, st)
@@ -710,8 +732,60 @@ func (x *Exec) checkAtCalls(fr *Frame, st *State, names []string, args []*SV, si
 			}
 		}
 		env.vars = vars
+		env.scopePos = site.Pos()
 		g := x.evalClauseBool(c, env, st)
 		x.oblige(st, "atcall", c.Label+"@"+text, c.Tags, g, site.Pos())
 		st.assume(g)
 	}
+}
+
+
+// sigNames: parameter names of a callee (receiver first), for atcall clauses on calls without contract.
+func sigNames(fn *ssa.Function) []string {
+	var out []string
+	if len(fn.Params) > 0 {
+		for _, p := range fn.Params {
+			out = append(out, p.Name())
+		}
+		return out
+	}
+	if r := fn.Signature.Recv(); r != nil {
+		out = append(out, r.Name())
+	}
+	ps := fn.Signature.Params()
+	for i := 0; i < ps.Len(); i++ {
+		out = append(out, ps.At(i).Name())
+	}
+	return out
+}
+
+// callSiteOrdinal: 1-based rank, in source order, of the call at pos among the call sites of fn
+// whose source text contains sub.
+func (x *Exec) callSiteOrdinal(fn *ssa.Function, sub string, pos token.Pos) int {
+	seen := map[token.Pos]bool{}
+	var ps []int
+	for _, b := range fn.Blocks {
+		for _, in := range b.Instrs {
+			switch in.(type) {
+			case *ssa.Call, *ssa.Defer, *ssa.Go:
+			default:
+				continue
+			}
+			p := in.Pos()
+			if !p.IsValid() || seen[p] {
+				continue
+			}
+			seen[p] = true
+			if strings.Contains(x.srcLabel(p, "call"), sub) {
+				ps = append(ps, int(p))
+			}
+		}
+	}
+	sort.Ints(ps)
+	for i, p := range ps {
+		if p == int(pos) {
+			return i + 1
+		}
+	}
+	return 0
 }
